@@ -51,6 +51,8 @@ def work(tier, seed):
     items.append({"wide_dtypes": True})
     items.append({"nan_range": True})
     items.append({"no_rng": True})
+    for n in (7, 8, 17, 64, 101):
+        items.append({"ladder": n})
     return items
 
 
@@ -95,6 +97,67 @@ def _run_label_kinds(ctx):
                     if got_g != want_g or got_f != want_f:
                         ctx.fail("from-labels-splits-by-genuine-label", case, observed=[got_g, got_f], expected=[want_g, want_f])
     ctx.sample({"kind": "label_kinds", "kinds": list(kinds), "patterns": patterns})
+    return None
+
+
+def _run_ladder(item, ctx, seed):
+    """Classes of 7 .. 101 distinct scores in [0,1]: the view against the Scores object for deterministic queries and for
+    bootstrap queries under deterministic (callable) samplers and under the seeded built-in ones."""
+    from score_analysis import BootstrapConfig, Scores
+    from score_analysis.applications.doc_fraud import FraudScores
+
+    n = item["ladder"]
+    gen = [((i * 37 + 11) % 1009) / 1009.0 for i in range(n)]
+    fra = [((i * 53 + 5) % 997) / 1000.0 for i in range(n + 3)]
+    T = np.array(sorted(set(gen[:4] + fra[:4] + [0.0, 0.5, 1.0, min(gen), min(fra), max(gen), sorted(gen)[1], sorted(fra)[1]])))
+    targets = np.array([0.0, 1.0 / n, 0.25, 0.5, 1.0])
+    for sc in ("genuine", "fraud"):
+        fs = FraudScores(genuines=np.array(gen), frauds=np.array(fra), nb_easy_genuines=2, score_class=sc)
+        ref = Scores(pos=np.array(gen), neg=np.array(fra), nb_easy_pos=2, score_class="pos" if sc == "genuine" else "neg", equal_class="pos")
+        case = {"kind": "ladder", "n_genuines": n, "n_frauds": n + 3, "score_class": sc}
+        ctx.state()
+        ctx.nontrivial()
+        if not (_eq(fs.pos, ref.pos) and _eq(fs.neg, ref.neg) and _eq(fs.genuines, ref.pos) and _eq(fs.frauds, ref.neg)):
+            ctx.fail("genuines-frauds-alias-pos-neg", case, observed=[np.asarray(fs.pos)[:3], np.asarray(fs.neg)[:3]], expected=[np.asarray(ref.pos)[:3], np.asarray(ref.neg)[:3]])
+        for q, f in (("cm", lambda o: o.cm(T).matrix), ("tpr", lambda o: o.tpr(T)), ("fpr", lambda o: o.fpr(T)), ("eer", lambda o: np.array(o.eer())),
+                     ("auc", lambda o: o.auc()), ("threshold_at_fnr", lambda o: o.threshold_at_fnr(targets)), ("threshold_at_fpr", lambda o: o.threshold_at_fpr(targets)),
+                     ("threshold_at_topr", lambda o: o.threshold_at_topr(targets))):
+            ok, (a, b_) = guarded(ctx, q, dict(case, query=q), lambda: (np.asarray(f(fs), dtype=float), np.asarray(f(ref), dtype=float)))
+            ctx.tick()
+            if ok and not np.array_equal(a, b_, equal_nan=True):
+                ctx.fail("query-equals-scores-object", dict(case, query=q), observed=a, expected=b_)
+        # bootstrap queries: deterministic samplers (the sampler's object is used as it is), then seeded built-in ones
+        def swapper(o):
+            return Scores(np.asarray(o.neg)[::2], np.asarray(o.pos)[::3], score_class="pos", equal_class="neg")
+
+        def thinner(o):
+            return Scores(np.asarray(o.pos)[1::2], np.asarray(o.neg)[::2], nb_easy_neg=1)
+
+        for sname, smp in (("swapping", swapper), ("thinning", thinner), ("identity", lambda o: o)):
+            cfgobj = BootstrapConfig(nb_samples=3, sampling_method=smp, bootstrap_method="quantile")
+            for q, f in (("bootstrap_metric", lambda o: o.bootstrap_metric("fnr", cfgobj, threshold=T)),
+                         ("bootstrap_ci", lambda o: o.bootstrap_ci("tpr", 0.2, cfgobj, threshold=T[::2])),
+                         ("bootstrap_sample", lambda o: np.concatenate([o.bootstrap_sample(cfgobj).pos, o.bootstrap_sample(cfgobj).neg]))):
+                ok, (a, b_) = guarded(ctx, q, dict(case, query=q, sampler=sname), lambda: (np.asarray(f(fs), dtype=float), np.asarray(f(ref), dtype=float)))
+                ctx.tick()
+                if ok and not np.array_equal(a, b_, equal_nan=True):
+                    ctx.fail("query-equals-scores-object", dict(case, query=q, sampler=sname), observed=a, expected=b_)
+        for method, strat in (("replacement", None), ("single_pass", "by_label"), ("dynamic", None)):
+            cfgobj = BootstrapConfig(nb_samples=4, sampling_method=method, stratified_sampling=strat, bootstrap_method="bc")
+            out = []
+            for o in (fs, ref):
+                st = np.random.get_state()
+                np.random.seed(seed + 3)
+                try:
+                    ok, v = guarded(ctx, "bootstrap_ci", dict(case, method=method), lambda: np.asarray(o.bootstrap_ci("fnr", 0.2, cfgobj, threshold=T[::3]), dtype=float))
+                finally:
+                    np.random.set_state(st)
+                out.append(v if ok else None)
+            ctx.tick()
+            if out[0] is not None and out[1] is not None and not np.array_equal(out[0], out[1], equal_nan=True):
+                ctx.fail("query-equals-scores-object", dict(case, query="bootstrap_ci", method=method, np_random_seed=seed + 3), observed=out[0], expected=out[1])
+    ctx.outcome(("ladder", n))
+    ctx.sample({"kind": "ladder", "n": n})
     return None
 
 
@@ -227,6 +290,8 @@ def run(item, ctx, tier, seed):
         return _run_nan_range(ctx)
     if item.get("no_rng"):
         return _run_no_rng(ctx)
+    if item.get("ladder"):
+        return _run_ladder(item, ctx, seed)
     if item.get("labels"):
         # label translations are mutually inverse on both enums (and on their string values)
         ctx.state()
